@@ -106,7 +106,7 @@ let faction_of_event (e : sx) : faction =
   | _ -> failwith ("unknown event " ^ string_of_sx e)
 
 let scale_run id c =
-  let ps = Array.of_list (List.map ints_of_sx (args (field "graph" c))) in
+  let ps = Array.map ints_of_sx (Array.of_list (args (field "graph" c))) in
   let par = par_of_array ps in
   let obs = field "obs" c in
   let status = atom (List.hd (args (field "run" obs))) in
@@ -156,7 +156,7 @@ let run_mode () =
         ["log0"; "log1"])
 
 let scale_case id c =
-  let ps = Array.of_list (List.map ints_of_sx (args (field "graph" c))) in
+  let ps = Array.map ints_of_sx (Array.of_list (args (field "graph" c))) in
   let par = par_of_array ps in
   let obs = args (field "obs" c) in
   let plans = List.find (fun x -> tag x = "plans") obs in
